@@ -364,7 +364,41 @@ fn sequential_case(ctx: &mut Ctx, case: u64, rng: &mut Rng) {
         let clients: Vec<Client> = docs.iter().map(|u| Client { h: &h, uni: u, keep: Default::default() }).collect();
         let mut uniq = 0;
         let mut known = vec![];
+        // the authors are the store's, not a document's: deleting one and importing it again are
+        // requests like any other, and later local writes must reflect them (added after seeded
+        // change agent-C14-7)
+        let mut author_known = [true, true];
         for _ in 0..rng.range(5, 40) {
+            if rng.chance(1, 14) {
+                let i = rng.below(2);
+                let a = &docs[0].authors[i];
+                if author_known[i] && rng.chance(2, 3) {
+                    let r = h.delete_author(a.id()).await;
+                    trace.push(format!("delete author {i} -> {}", r.is_ok()));
+                    if r.is_err() {
+                        ctx.violation(case, "delete-author-failed", json!({"trace": trace}));
+                        return;
+                    }
+                    author_known[i] = false;
+                    ctx.count("authors_deleted", 1);
+                    match h.export_author(a.id()).await {
+                        Ok(None) => {}
+                        other => {
+                            ctx.violation(case, "deleted-author-still-exported", json!({"got": format!("{:?}", other.map(|o| o.is_some())), "trace": trace}));
+                            return;
+                        }
+                    }
+                } else {
+                    let r = h.import_author(a.clone()).await;
+                    trace.push(format!("import author {i} -> {}", r.is_ok()));
+                    if r.is_err() {
+                        ctx.violation(case, "import-author-failed", json!({"trace": trace}));
+                        return;
+                    }
+                    author_known[i] = true;
+                }
+                continue;
+            }
             // sometimes a pipelined batch: several requests are sent without waiting for the replies
             // (they are sent in order, so the replies must be those of the sequential order)
             if rng.chance(1, 6) {
@@ -396,7 +430,7 @@ fn sequential_case(ctx: &mut Ctx, case: u64, rng: &mut Rng) {
                 ctx.count("pipelined_batches", 1);
                 let mut bad = None;
                 for ((d, op), g) in batch.iter().zip(got.iter()) {
-                    let want = specs[*d].apply(op, &docs[*d], t);
+                    let want = apply_with_authors(&mut specs[*d], op, &docs[*d], t, &author_known);
                     trace.push(format!("doc{d} (pipelined) {op:?} -> {g:?}"));
                     ctx.count("sequential_steps", 1);
                     if *g != want && bad.is_none() {
@@ -422,7 +456,7 @@ fn sequential_case(ctx: &mut Ctx, case: u64, rng: &mut Rng) {
                         let mut cx = std::task::Context::from_waker(waker);
                         let _ = std::future::Future::poll(fut.as_mut(), &mut cx);
                     }
-                    let _ = specs[d].apply(&op, &docs[d], t);
+                    let _ = apply_with_authors(&mut specs[d], &op, &docs[d], t, &author_known);
                     trace.push(format!("doc{d} (sent, reply not awaited) {op:?}"));
                     ctx.count("requests_sent_without_awaiting_the_reply", 1);
                     // the next awaited request is answered after it (FIFO): compare the open state
@@ -439,7 +473,7 @@ fn sequential_case(ctx: &mut Ctx, case: u64, rng: &mut Rng) {
             }
             let d = rng.below(2);
             let op = gen_op(rng, 2, &mut uniq, 0, false, &mut known);
-            let want = specs[d].apply(&op, &docs[d], t);
+            let want = apply_with_authors(&mut specs[d], &op, &docs[d], t, &author_known);
             let got = clients[d].exec(&op).await;
             trace.push(format!("doc{d} {op:?} -> {got:?}"));
             ctx.count("sequential_steps", 1);
@@ -492,6 +526,14 @@ fn sequential_case(ctx: &mut Ctx, case: u64, rng: &mut Rng) {
     }
     if ctx.want_sample() {
         ctx.sample(json!({"case": case, "mode": "sequential", "trace": trace}));
+    }
+}
+
+/// Local writes need their author in the store at the time the request is served.
+fn apply_with_authors(spec: &mut DocSpec, op: &Op, uni: &Universe, t: u64, known: &[bool; 2]) -> Reply {
+    match op {
+        Op::InsertLocal { author, .. } | Op::DeletePrefix { author, .. } if !known[*author] => Reply::Err,
+        _ => spec.apply(op, uni, t),
     }
 }
 
